@@ -74,8 +74,10 @@ type c12Run struct {
 	closers []c12Closer
 	closeFn func()
 	closed  bool // session Close requested by the harness
-	bad     string
-	badSig  string
+	// openCalls: OpenStream calls made so far (stream ids are handed out 1, 2, ...)
+	openCalls int
+	bad       string
+	badSig    string
 	// timer oracle
 	zeroSince [2]time.Duration
 	hadOpen   [2]int
@@ -99,7 +101,7 @@ func (r *c12Run) fail(sig, format string, a ...any) {
 }
 
 func (r *c12Run) faultFired() bool {
-	return r.closed || r.c.Net.Fired["reset"] > 0 || r.c.Net.Fired["eof"] > 0 || r.sw.C.IsClosed() || r.sw.S.IsClosed()
+	return r.closed || r.c.Net.Fired["reset"] > 0 || r.c.Net.Fired["eof"] > 0 || r.c.Net.Fired["cut"] > 0 || r.sw.C.IsClosed() || r.sw.S.IsClosed()
 }
 
 // read verifies pattern bytes until n are read or an error ends the stream:
@@ -215,6 +217,7 @@ func (r *c12Run) startOpener(i int) {
 	st := r.states[i]
 	r.task("opener", func(t *c12Task) {
 		t.inCall = "OpenStream"
+		r.openCalls++ // (counted before the call: the id is taken inside it)
 		stream, err := r.sw.C.OpenStream()
 		t.inCall = ""
 		if err != nil {
@@ -269,6 +272,12 @@ func (r *c12Run) acceptLoop(sesh *mux.Session, who int) {
 			}
 			if who == 0 {
 				r.fail("data:foreign-stream", "the client accepted a stream nobody opened")
+				return
+			}
+			// the opener numbers its streams 1, 2, 3, ...: anything else was made up
+			// on the way (a record cut short by the fault must not be taken for a frame)
+			if id := conn.(*mux.Stream).VerifID(); id == 0 || int(id) > r.openCalls {
+				r.fail("data:foreign-stream", "the accepting side was handed stream %d, but only %d streams were ever opened (fault %+v)", id, r.openCalls, r.sc.Fault)
 				return
 			}
 			r.task("acceptor", func(t *c12Task) { r.acceptor(t, conn) })
@@ -430,12 +439,15 @@ func genC12Random(g *Gen) any {
 	if sc.Sess.Singleplex {
 		sc.Streams[0].OpenAfter = 0
 	}
-	kinds := []string{"none", "reset", "eof0", "eof1", "close-c", "close-s", "sched-reset", "sched-eof", "close-c", "close-s"}
+	kinds := []string{"none", "reset", "eof0", "eof1", "close-c", "close-s", "sched-reset", "sched-eof", "close-c", "close-s", "cut"}
 	f := C12Fault{Kind: kinds[g.Rng.IntN(len(kinds))], Link: g.Int(0, sc.Sess.NConn-1), Dir: g.Int(0, 1)}
 	if g.Bool(0.5) {
 		f.AfterWrite = g.Int(1, 20)
 	} else {
 		f.AtByte = int64(g.Pick(1, 3, 5, 6, 19, 20, g.Int(1, 3000), g.Int(1, 20000)))
+	}
+	if f.Kind == "cut" && f.AtByte == 0 {
+		f.AfterWrite, f.AtByte = 0, int64(g.Int(1, 20000))
 	}
 	f.CloseAfter = g.Pick(0, 0, 1, 8, 100, 2000, 6000)
 	sc.Fault = f
@@ -448,7 +460,7 @@ var c12BoundaryBytes = []int64{1, 3, 5, 6, 12, 19, 20, 100, 300, 301, 700, 1500,
 
 const c12BoundaryWrites = 14
 
-func c12BoundaryCount() int { return 3 * 2 * 2 * (c12BoundaryWrites + len(c12BoundaryBytes)) }
+func c12BoundaryCount() int { return 4 * 2 * 2 * (c12BoundaryWrites + len(c12BoundaryBytes)) }
 
 func genC12Boundary(g *Gen) any {
 	i := g.Idx
@@ -458,15 +470,18 @@ func genC12Boundary(g *Gen) any {
 	i /= 2
 	link := i % 2
 	i /= 2
-	kind := []string{"reset", "eof0", "eof1"}[i%3]
+	// "cut": the direction ends after exactly that many bytes, inside a record
+	kind := []string{"reset", "eof0", "eof1", "cut"}[i%4]
 	sc := &C12Scenario{PatKey: 0xC12C12, Linger: true}
-	sc.Sess = SessParams{Method: byte(1 + g.Idx%3), NConn: 2, InactS: 30, WireLimit: 700}
+	sc.Sess = SessParams{Method: byte(g.Idx % 4), NConn: 2, InactS: 30, WireLimit: 700}
 	mk := func(up, down int, seed uint64) C12Stream {
 		return C12Stream{StreamPlan: StreamPlan{Up: up, Down: down, SizeClass: 3, SizeSeed: seed, ReadBuf: 3000}}
 	}
 	sc.Streams = []C12Stream{mk(2500, 1800, 11), mk(900, 3000, 12)}
 	sc.Fault = C12Fault{Kind: kind, Link: link, Dir: dir}
-	if pos < c12BoundaryWrites {
+	if pos < c12BoundaryWrites && kind == "cut" {
+		sc.Fault.AtByte = int64(7 + 53*pos)
+	} else if pos < c12BoundaryWrites {
 		sc.Fault.AfterWrite = pos + 1
 	} else {
 		sc.Fault.AtByte = c12BoundaryBytes[pos-c12BoundaryWrites]
@@ -487,7 +502,7 @@ func runC12(c *Ctx, scAny any) {
 	}
 	f := sc.Fault
 	switch f.Kind {
-	case "reset", "eof0", "eof1":
+	case "reset", "eof0", "eof1", "cut":
 		if f.Link < len(sw.Links) && !sc.Backlog {
 			sw.Links[f.Link].Script = append(sw.Links[f.Link].Script, simnet.ScriptedFault{Dir: f.Dir, AfterWrite: f.AfterWrite, AtByte: f.AtByte, Kind: f.Kind})
 		}
